@@ -682,3 +682,38 @@ def check_pairs(case, ctx):
 
 
 SUBS.append(Sub('pairs', check_pairs, strategy=pairs_case(), quick=6000, thorough=300000, shards_quick=4))
+
+
+# --------------------------------------------------------------------------- more than six fractional digits: rounded, but consistently
+
+
+def rounding_cases(tier):
+    for lit in ['1.0000001', '0.9999999', '-0.9999999px', '0.0000001px', '-0.0000001%', '2.99999999', '0.1234567', '-12.3456789em', '0.99999949',
+                '0.9999995', '+0.9999999', '999999.9999999', '0.00000049', '1.00000051pt']:
+        for omit in (False, True):
+            yield {'lit': lit, 'omit': omit}
+
+
+def check_rounding(case, ctx):
+    lit, omit = case['lit'], case['omit']
+    src = frac_of(lit)
+    saved = cssutils.log.raiseExceptions
+    cssutils.log.raiseExceptions = True
+    try:
+        with Prefs(omitLeadingZero=omit):
+            with lib('parse'):
+                out = PropertyValue(lit).cssText
+                out2 = PropertyValue(out).cssText
+            o = frac_of(out)
+            if o is None:
+                raise Violation('rounding:output-not-a-number', f'{lit!r} (omitLeadingZero={omit}) -> {out!r}')
+            if abs(o[4] - src[4]) > Fraction(1, 10 ** 6):
+                raise Violation('rounding:value-off-by-more-than-1e-6', f'{lit!r} (omitLeadingZero={omit}) -> {out!r}')
+            if out2 != out:
+                raise Violation('rounding:output-not-a-fixpoint', f'{lit!r} (omitLeadingZero={omit}) -> {out!r} -> {out2!r}')
+    finally:
+        cssutils.log.raiseExceptions = saved
+    ctx.case([lit, omit], True, {'literal': lit, 'omitLeadingZero': omit, 'output': out})
+
+
+SUBS.append(Sub('rounding', check_rounding, enumerate=rounding_cases, shards_quick=1, shards_thorough=1))
